@@ -60,6 +60,7 @@ def run(tier: str) -> int:
     try:
         progs, stats = build(tier, core.seed(), work, nprog, nvec)
         mm, skips, gen, dis = progrun.run_machine(progs)
+        mm, skips = progrun.split_big({p['pid']: p for p in progs}, mm, skips)
     finally:
         shutil.rmtree(work, ignore_errors=True)
     rep.add_tlc(gen, dis)
